@@ -109,8 +109,11 @@ class O2JMap(Map[O2JNoteList, O2JHitList, O2JHoldList, O2JBpmList]):
                 # dtype of the placeholder length and lose its fraction
                 note.length = float(note_measure_dict[note.tail_measure] - note.offset)
 
-        # We add the missing first BPM here
-        bpms.insert(0, O2JBpm(offset=0, bpm=init_bpm))
+        # We add the missing first BPM here, unless a tempo event on measure 0
+        # already replaces the header tempo (two tempo points at 0 ms would
+        # make a zero-length segment no writer can represent)
+        if not bpms or bpms[0].measure != 0:
+            bpms.insert(0, O2JBpm(offset=0, bpm=init_bpm))
         m = O2JMap()
         m.hits = O2JHitList([n for n in notes if isinstance(n, O2JHit)])
         m.holds = O2JHoldList([n for n in notes if isinstance(n, O2JHold)])
